@@ -455,7 +455,10 @@ func vfCensus(c *kit.Case) {
 	if vfStuck.Load() {
 		return // an unjoined interceptor call is reported as inconclusive, not as a leak
 	}
-	leaked, conclusive := kit.Census(c.ID, 300*time.Millisecond, 4, 30*time.Second)
+	for i := 0; i < 2000 && len(kit.LabelledGoroutines(c.ID)) != 0; i++ {
+		time.Sleep(time.Millisecond)
+	}
+	leaked, conclusive := kit.Census(c.ID, 500*time.Millisecond, 5, 40*time.Second)
 	if !conclusive {
 		c.Inconclusive("goroutine census did not stabilise")
 		return
@@ -565,7 +568,7 @@ func vfTimerCase(c *kit.Case) {
 
 func TestVerifC04S(t *testing.T) {
 	logx.Disable()
-	kit.Run(t, "C04", "zrpc-server-cancel", kit.N(300, 9000), vfCancelCase)
-	kit.Run(t, "C04", "zrpc-server-timer", kit.N(80, 3000), vfTimerCase)
+	kit.Run(t, "C04", "zrpc-server-cancel", kit.N(6000, 80000), vfCancelCase)
+	kit.Run(t, "C04", "zrpc-server-timer", kit.N(800, 12000), vfTimerCase)
 	kit.End()
 }
